@@ -33,20 +33,11 @@ impl<'a> Engine<'a> {
                 self.graphics.backward_compatibility = false;
             }
             Program::Glyph => {
-                // Instruct control bit 1 says we reset retained graphics state
-                // to default values.
-                if self.graphics.instruct_control & 2 != 0 {
-                    self.graphics.reset_retained();
-                }
-                // Set backward compatibility mode
-                if self.graphics.target.preserve_linear_metrics() {
-                    self.graphics.backward_compatibility = true;
-                } else if self.graphics.target.is_smooth() {
-                    self.graphics.backward_compatibility =
-                        (self.graphics.instruct_control & 0x4) == 0;
-                } else {
-                    self.graphics.backward_compatibility = false;
-                }
+                // Note: instruct control bit 1 (use the default graphics
+                // state) does not reset the retained state here; see
+                // `RetainedGraphicsState::backward_compatibility`.
+                self.graphics.backward_compatibility =
+                    self.graphics.retained.backward_compatibility();
             }
         }
     }
